@@ -2106,6 +2106,10 @@ impl Compiler {
                     if local_register != result_register {
                         if wildcard_import {
                             self.push_op(ImportAll, &[local_register]);
+                            // The caller may go on to use the result register
+                            // (e.g. to export the wildcard's entries when
+                            // `export_top_level_ids` is enabled), so it has to hold the value.
+                            self.push_op(Copy, &[result_register, local_register]);
                         } else {
                             self.push_op(Copy, &[result_register, local_register]);
                         }
